@@ -36,6 +36,7 @@ type c04req struct {
 	doneSeq  uint64
 	done     bool
 	panics   bool
+	logPanic bool // the logger's sink broke in a log call made for this request
 	status   int
 	cancel   func() // ends the request's context (the client has gone away); the handler goes on until it returns
 }
@@ -71,6 +72,8 @@ func c04core(r *simkit.Run, minSources int, forceFine bool) {
 
 	inHandler := make([]int, nsrc)
 	var reqs []*c04req
+	var unidentified []*c04req
+	unidentifiedReqs := func() []*c04req { return unidentified }
 	var violation string
 
 	base, err := utils.NewExtractor("request.header." + rapid.SampledFrom([]string{"Src", "Src", "src", "SRC", "sRC"}).Draw(rt, "source-header-spelling"))
@@ -114,8 +117,28 @@ func c04core(r *simkit.Run, minSources int, forceFine bool) {
 		_, _ = w.Write([]byte("ok"))
 	})
 	var clOpts []connlimit.Option
+	// by draw the caller's logger is slow (every call a yield point), and by a further draw its sink breaks once: one
+	// log call panics. The request that made that call is lost to its client, whatever it was about to be told; the
+	// slots are not: it holds one exactly while it is inside the handler, like any other.
+	logLeft := -1
 	if rapid.IntRange(0, 2).Draw(rt, "slow-logger") == 0 {
-		clOpts = append(clOpts, connlimit.Logger(simkit.SlowLogger{}), connlimit.Verbose(rapid.Bool().Draw(rt, "verbose")))
+		if rapid.IntRange(0, 2).Draw(rt, "log-sink-breaks-once") == 0 {
+			logLeft = rapid.IntRange(1, 30).Draw(rt, "log-call-that-panics")
+		}
+		clOpts = append(clOpts, connlimit.Logger(simkit.FaultyLogger{Left: &logLeft, OnPanic: func() {
+			r.Fault("logger-panic")
+			cur := sim.Current()
+			for _, q := range reqs {
+				if q.task == cur {
+					q.logPanic = true
+				}
+			}
+			for _, q := range unidentifiedReqs() {
+				if q.task == cur {
+					q.logPanic = true
+				}
+			}
+		}}), connlimit.Verbose(rapid.Bool().Draw(rt, "verbose")))
 	}
 	ownHandler := rapid.IntRange(0, 2).Draw(rt, "own-error-handler") == 0
 	if ownHandler {
@@ -137,7 +160,6 @@ func c04core(r *simkit.Run, minSources int, forceFine bool) {
 
 	model := make([]int, nsrc) // coarse mode: admitted and not yet finished
 
-	var unidentified []*c04req
 	arriveBad := func(src int) *c04req {
 		q := &c04req{id: -1, src: src, rec: simkit.NewRecorder()}
 		unidentified = append(unidentified, q)
@@ -191,6 +213,12 @@ func c04core(r *simkit.Run, minSources int, forceFine bool) {
 	}
 	// coarse-mode exact admission oracle, evaluated when a request has been run to its park/end
 	coarseAfterArrive := func(q *c04req) {
+		if q.logPanic {
+			if q.entered {
+				model[q.src]++
+			}
+			return // lost before it was told anything, or admitted: either way no answer to judge
+		}
 		want := model[q.src] < limit
 		if q.entered != want {
 			r.Fail("admission", "coarse: source s%d had %d in flight (limit %d): admitted=%v", q.src, model[q.src], limit, q.entered)
@@ -295,15 +323,15 @@ func c04core(r *simkit.Run, minSources int, forceFine bool) {
 		if q.panics && q.task.Panic == nil {
 			r.Fail("panic-swallowed", "request %d: handler panic did not propagate", q.id)
 		}
-		if !q.panics && q.task.Panic != nil {
+		if !q.panics && !q.logPanic && q.task.Panic != nil {
 			r.Fail("unexpected-panic", "request %d: %v\n%s", q.id, q.task.Panic, q.task.PanicSite)
 		}
-		if !q.entered && q.status != http.StatusTooManyRequests {
+		if !q.entered && !q.logPanic && q.status != http.StatusTooManyRequests {
 			r.Fail("reject-status", "request %d not admitted but answered %d", q.id, q.status)
 		}
 	}
 	for _, q := range unidentified {
-		if !q.done || q.entered || q.status < 400 {
+		if !q.done || q.entered || (q.status < 400 && !q.logPanic) {
 			r.Fail("unidentified-source", "a request whose source could not be identified: done=%v reached the handler=%v status %d (expected an error response and no handler call)", q.done, q.entered, q.status)
 		}
 	}
@@ -317,6 +345,9 @@ func c04core(r *simkit.Run, minSources int, forceFine bool) {
 	if fine && len(reqs) > 0 {
 		var ops []porcupine.Operation
 		for _, q := range reqs {
+			if q.logPanic && !q.entered {
+				continue // lost before the handler, refused or not: no slot taken either way, nothing to explain
+			}
 			ops = append(ops, porcupine.Operation{ClientId: q.id, Input: c04in{true, q.src}, Call: int64(2 * q.invoke),
 				Output: q.entered, Return: int64(2*ternary(q.entered, q.enterSeq, q.doneSeq) + 1)})
 			if q.entered {
@@ -334,6 +365,7 @@ func c04core(r *simkit.Run, minSources int, forceFine bool) {
 	}
 
 	// bounded liveness: all slots are back
+	logLeft = -1 // the sink has been repaired
 	for s := 0; s < nsrc; s++ {
 		var batch []*c04req
 		for k := 0; k < limit; k++ {
@@ -363,7 +395,7 @@ func c04core(r *simkit.Run, minSources int, forceFine bool) {
 
 	if ownHandler {
 		for _, q := range reqs {
-			if n := len(q.rec.Snapshot.Values("X-Own-Err-Handler")); q.done && !q.entered && n != 1 {
+			if n := len(q.rec.Snapshot.Values("X-Own-Err-Handler")); q.done && !q.entered && !q.logPanic && n != 1 {
 				r.Fail("own-error-handler", "request r%d of s%d was not admitted (status %d) and the configured error handler answered %d times", q.id, q.src, q.rec.Status, n)
 			}
 		}
